@@ -25,7 +25,7 @@ Record Tok (s : st) : Prop := mkTok {
   t_ssig : pending s <> 0 -> nth_error (arrs s) (pend_id s) = Some (pending s);
   t_dsig : forall i x, In (i, FDelivered x) (fates s) -> nth_error (arrs s) i = Some x;
   t_lost : no_fate FLost (fates s);
-  t_stop : forall i, In (i, FStopLost) (fates s) -> 0 < stops s }.
+  t_stop : forall i, In (i, FStopLost) (fates s) -> 0 < stops s + cbt s }.
 
 Lemma one_cases b : (b = true /\ one b = 1) \/ (b = false /\ one b = 0).
 Proof. destruct b; simpl; auto. Qed.
@@ -166,8 +166,20 @@ Proof.
   - apply tok_arrive; assumption.
 Qed.
 
+(* the running callback takes a block: no token moves *)
+Lemma tok_cbb s : Tok s -> Tok (cb_block s).
+Proof.
+  intros HT. unfold cb_block. destruct (stack s) as [|f rest] eqn:Hs; [exact HT|].
+  destruct (h_pc f) eqn:Hpc; try exact HT.
+  destruct HT as [Ht Hfs Hss Hds Hl Hsp]. rewrite Hs in Hfs.
+  constructor; simpl; auto.
+  - intro i. specialize (Ht i). unfold total, cnt_slot in *. rewrite Hs in Ht. simpl in *. exact Ht.
+  - intros i H. specialize (Hsp i H). lia.
+Qed.
+
 Theorem reach_tok o a s : bal 0 o = true -> reach o a s -> Tok s.
 Proof.
-  intros Hb Hr. induction Hr as [|s d Hr IH]; [apply tok_init|].
-  apply tok_step; [eapply reach_inv; eassumption|exact IH].
+  intros Hb Hr. induction Hr as [|s d Hr IH|s Hr IH|s o' Hr IH Hs Hm Ho]; [apply tok_init| |apply tok_cbb; exact IH|].
+  - apply tok_step; [eapply reach_inv; eassumption|exact IH].
+  - destruct IH as [Ht Hfs Hss Hds Hl Hsp]. constructor; simpl; auto.
 Qed.
